@@ -31,7 +31,7 @@ m = {
     "setup_cmd": "./setup.sh",
     "hooks": {
         "guard": "verif",
-        "enable": "go build -tags verif -overlay <generated>: export files under /verif/hooks/<pkg>/zz_verif_*.go (//go:build verif) are added to the repo packages by overlay; the interleaving checks (C11 C18 C22 C23 C26 C37 C39) and C24/C25/C36 additionally build from mechanically rewritten COPIES of repo files that checks/cNN/prebuild.sh regenerates from the current working tree on every run (tools/vrewrite: sync/channel/go/time -> scheduler-visible equivalents; tools/wallet_prebuild.sh; checks/c36/prebuild.sh); nothing is committed to /repo for instrumentation, so with the guard off the repository is exactly its git HEAD",
+        "enable": "go build -tags verif -overlay <generated>: export files under /verif/hooks/<pkg>/zz_verif_*.go (//go:build verif) are added to the repo packages by overlay; the two generated asset files dashboard/dashboard/dashboard.go and dashboard/equity/equity.go, which are EMPTY in this tree and keep package api from compiling, are overlaid by one-line stubs (var Files) so that C27/C36 can call the real api handlers; the interleaving checks (C11 C18 C22 C23 C26 C37 C39) and C24/C25/C36 additionally build from mechanically rewritten COPIES of repo files that checks/cNN/prebuild.sh regenerates from the current working tree on every run (tools/vrewrite: sync/channel/go/time -> scheduler-visible equivalents; tools/wallet_prebuild.sh; checks/c36/prebuild.sh); nothing is committed to /repo for instrumentation, so with the guard off the repository is exactly its git HEAD",
         "baseline_off_cmd": json.load(open("/root/.vp/BASELINE.json"))["cmd"] if os.path.exists("/root/.vp/BASELINE.json") else "for m in . ./lib/github.com/tendermint/ed25519 ./lib/golang.org/x/crypto ./lib/golang.org/x/net; do (cd /repo/$m && go test -mod=mod -json -vet=off -count=1 -timeout 25m ./...); done",
         "source_commits": [],
         "add_only": True,
